@@ -28,6 +28,7 @@ protected:
   mutable Vdouble eqFreq_;
 
   mutable bool upToDate_;
+  mutable bool eqFreqUpToDate_;
 
 public:
   AbstractHmmTransitionMatrix(std::shared_ptr<const HmmStateAlphabet> alph, const std::string& prefix = "");
